@@ -753,6 +753,18 @@ func (fi *FuncInfo) lenOf(v ssa.Value) Lin {
 		if bi, ok := x.Call.Value.(*ssa.Builtin); ok && bi.Name() == "append" && len(x.Call.Args) == 2 {
 			return fi.lenOf(x.Call.Args[0]).add(fi.lenOf(x.Call.Args[1]))
 		}
+		// f(…, s, …) every result of which is s itself or a fresh slice of len(s) (a growing helper)
+		if callee := x.Call.StaticCallee(); callee != nil && !x.Call.IsInvoke() {
+			if i, ok := fi.ctx.lenOfResult(callee); ok {
+				off := 0
+				if callee.Signature.Recv() != nil {
+					off = 0 // Params and Args both include the receiver
+				}
+				if i+off < len(x.Call.Args) {
+					return fi.lenOf(x.Call.Args[i+off])
+				}
+			}
+		}
 	case *ssa.MakeSlice:
 		return fi.lin(x.Len)
 	case *ssa.UnOp:
@@ -849,6 +861,51 @@ func (c *Ctx) lenPreserving(fn *ssa.Function, f *types.Var) bool {
 	}
 	c.lenPres[key] = ok && n > 0
 	return ok && n > 0
+}
+
+// lenOfResult: fn returns one slice and every returned value is parameter #i itself or a slice made with the length
+// of parameter #i: the result is as long as that argument.
+func (c *Ctx) lenOfResult(fn *ssa.Function) (int, bool) {
+	if c.lenRes == nil {
+		c.lenRes = map[*ssa.Function]int{}
+	}
+	if r, ok := c.lenRes[fn]; ok {
+		return r, r >= 0
+	}
+	c.lenRes[fn] = -1
+	if fn.Blocks == nil || fn.Signature.Results().Len() != 1 {
+		return -1, false
+	}
+	if _, ok := fn.Signature.Results().At(0).Type().Underlying().(*types.Slice); !ok {
+		return -1, false
+	}
+	fi := c.info(fn)
+	idx := -1
+	for _, b := range fn.Blocks {
+		ret, ok := b.Instrs[len(b.Instrs)-1].(*ssa.Return)
+		if !ok {
+			continue
+		}
+		for _, lf := range phiLeaves(ret.Results[0]) {
+			leaf := lf.V
+			found := -1
+			for i, p := range fn.Params {
+				if leaf == ssa.Value(p) {
+					found = i
+				} else if mk, ok := leaf.(*ssa.MakeSlice); ok {
+					if _, isS := p.Type().Underlying().(*types.Slice); isS && fi.lin(mk.Len).eq(fi.lenOf(p)) {
+						found = i
+					}
+				}
+			}
+			if found < 0 || (idx >= 0 && idx != found) {
+				return -1, false
+			}
+			idx = found
+		}
+	}
+	c.lenRes[fn] = idx
+	return idx, idx >= 0
 }
 
 // uniqueReachingStore: the load sees exactly one writer of its field, that
